@@ -16,11 +16,15 @@ use std::time::Instant;
 pub struct Workload {
     pub ty: Ty,
     pub ops: Vec<WOp>,
+    /// shape a is replaced by a shape whose last part has this many points (0 = off)
+    pub big: usize,
+    /// large workloads are split: this unit handles the crash points whose number is = slice.0 mod slice.1
+    pub slice: (usize, usize),
 }
 
 impl Workload {
     pub fn to_json(&self) -> Value {
-        json!({"ty": self.ty.name(), "ops": ops_name(&self.ops)})
+        json!({"ty": self.ty.name(), "ops": ops_name(&self.ops), "big": self.big})
     }
 }
 
@@ -44,7 +48,7 @@ impl Case {
             Some((a.first()?.as_u64()? as usize, a.get(1)?.as_u64()? as usize))
         };
         Some(Case {
-            w: Workload { ty: Ty::from_name(w.get("ty")?.as_str()?)?, ops: ops_from_name(w.get("ops")?.as_str()?)? },
+            w: Workload { ty: Ty::from_name(w.get("ty")?.as_str()?)?, ops: ops_from_name(w.get("ops")?.as_str()?)?, big: w.get("big").and_then(|x| x.as_u64()).unwrap_or(0) as usize, slice: (0, 1) },
             shp_cut: pair(v.get("shp_cut")?)?,
             shx_cut: match v.get("shx_cut") {
                 Some(Value::Array(_)) => Some(pair(v.get("shx_cut")?)?),
@@ -259,14 +263,31 @@ pub fn workloads(tier: Tier) -> Vec<Workload> {
     };
     for ty in types {
         for ops in &pick {
-            out.push(Workload { ty, ops: ops.clone() });
+            out.push(Workload { ty, ops: ops.clone(), big: 0, slice: (0, 1) });
+        }
+    }
+    // long parts: a record that is far larger than any internal block
+    for ty in [Ty::Polyline, Ty::Multipoint, Ty::PolygonM] {
+        for i in 0..16 {
+            out.push(Workload { ty, ops: vec![WOp::W(0), WOp::F, WOp::W(1), WOp::W(0)], big: 1500, slice: (i, 16) });
         }
     }
     out
 }
 
+fn palette_for(w: &Workload) -> Palette {
+    let mut pal = Palette::new(w.ty, None);
+    if w.big > 0 {
+        let m = crate::structs::sized(w.ty, w.big);
+        pal.lib[0] = to_lib(&m);
+        pal.built[0] = from_lib(&pal.lib[0]);
+        pal.model[0] = m;
+    }
+    pal
+}
+
 fn run_unit(w: &Workload, ctx: &mut Ctx, tick: &dyn Fn()) {
-    let pal = Palette::new(w.ty, None);
+    let pal = palette_for(w);
     let run = match catch(|| run_workload(&pal, w)) {
         Ok(r) => r,
         Err(p) => {
@@ -277,8 +298,17 @@ fn run_unit(w: &Workload, ctx: &mut Ctx, tick: &dyn Fn()) {
     // cases are distinct by construction here (images are deduplicated by
     // content per workload, workloads are distinct): count structurally instead of hashing
     ctx.track_hashes = false;
+    if w.big > 0 {
+        run_unit_streaming(w, &pal, &run, ctx, tick);
+        return;
+    }
     let shp_imgs = images(&run.shp_log, &run.finalized);
-    let shx_imgs = images(&run.shx_log, &[]);
+    let mut shx_imgs = images(&run.shx_log, &[]);
+    if w.big > 0 {
+        // the .shp has tens of thousands of crash points here: pair them with the index as persisted
+        // after each complete operation only
+        shx_imgs.list.retain(|(_, (_, b), _)| *b == 0);
+    }
     let total = shp_imgs.list.len() as u64 * (1 + shx_imgs.list.len() as u64);
     ctx.structural_distinct += total;
     ctx.structural_nontrivial += total.saturating_sub(2);
@@ -329,8 +359,55 @@ fn run_unit(w: &Workload, ctx: &mut Ctx, tick: &dyn Fn()) {
     }
 }
 
+/// Large workloads: tens of thousands of .shp crash points of tens of KiB each; images are
+/// evaluated as they are produced (no deduplication, nothing stored), paired with the index as
+/// persisted after each complete operation.
+fn run_unit_streaming(w: &Workload, pal: &Palette, run: &Run, ctx: &mut Ctx, tick: &dyn Fn()) {
+    let mut shx_list: Vec<(Vec<u8>, (usize, usize))> = vec![];
+    crash_images(&run.shx_log, |k, b, img| {
+        if b == 0 && shx_list.last().map(|x| x.0 != img).unwrap_or(true) {
+            shx_list.push((img.to_vec(), (k, b)));
+        }
+    });
+    let mut n_points = 0u64;
+    let mut counter = 0usize;
+    crash_images(&run.shp_log, |k, b, img| {
+        // every operation boundary, and cuts after 1, 4 and 7 bytes of every write
+        if !(b == 0 || b == 1 || b == 4 || b == 7) {
+            return;
+        }
+        counter += 1;
+        if counter % w.slice.1 != w.slice.0 {
+            return;
+        }
+        n_points += 1;
+        let req = run.finalized.iter().filter(|(n_ops, _)| *n_ops <= k).map(|(_, n)| *n).max().unwrap_or(0);
+        for shx in std::iter::once(None).chain(shx_list.iter().map(Some)) {
+            let case = || Case { w: w.clone(), shp_cut: (k, b), shx_cut: shx.map(|x| x.1) }.to_json();
+            match catch(|| read_image(img, shx.map(|x| &x.0[..]), run.written.len())) {
+                Ok(seen) => {
+                    ctx.evals += 1;
+                    ctx.lib_calls += 2 + seen.items.len() as u64 + seen.nth.len() as u64;
+                    for (sig, d) in judge(pal, &run.written, req, shx.is_some(), &seen) {
+                        ctx.violation(format!("{}:{}", w.ty.name(), sig), case, || d);
+                    }
+                }
+                Err(p) => {
+                    ctx.evals += 1;
+                    ctx.violation(format!("{}:{}", w.ty.name(), p.sig()), case, || format!("{}:{} {}", p.file, p.line, p.msg));
+                }
+            }
+        }
+        tick();
+    });
+    let total = n_points * (1 + shx_list.len() as u64);
+    ctx.structural_distinct += total;
+    ctx.structural_nontrivial += total.saturating_sub(2);
+    ctx.bump("shp_crash_points", n_points);
+}
+
 fn selftest() -> (u64, u64) {
-    let w = Workload { ty: Ty::PolylineM, ops: vec![WOp::W(0), WOp::F, WOp::W(1)] };
+    let w = Workload { ty: Ty::PolylineM, ops: vec![WOp::W(0), WOp::F, WOp::W(1)], big: 0, slice: (0, 1) };
     let pal = Palette::new(w.ty, None);
     let run = run_workload(&pal, &w);
     let shp = Dev::new();
@@ -380,7 +457,7 @@ pub fn check(tier: Tier) -> i32 {
             tier,
             level: "fault_enumeration",
             engine: "writer histories executed on the real ShapeWriter over logging devices; every crash image (operation prefix x torn write) of .shp and, independently, .shx fed to the real ShapeReader",
-            rule: "workloads = histories over {Wa, Wb, F} with <= 3 writes and <= 2 finalizes at any placement (finalize before the first write included), ending in drop; crash points = for each device every k (operations applied) and every b (bytes of operation k+1 applied, 0 < b < len), images deduplicated by content (so cases are distinct by construction and are counted structurally, not hashed); evaluated: every .shp image without index, and every (.shp image, .shx image) pair with index; non-trivial = some operation applied or a torn write",
+            rule: "workloads = histories over {Wa, Wb, F} with <= 3 writes and <= 2 finalizes at any placement (finalize before the first write included), ending in drop, plus three workloads whose records have a part of 1500 points (for these: every operation boundary and cuts after 1, 4, 7 bytes of every write on the .shp, the .shx as persisted after each complete operation); crash points = for each device every k (operations applied) and every b (bytes of operation k+1 applied, 0 < b < len), images deduplicated by content (so cases are distinct by construction and are counted structurally, not hashed); evaluated: every .shp image without index, and every (.shp image, .shx image) pair with index; non-trivial = some operation applied or a torn write",
             bounds: json!({"workloads": ws.len(), "types": tier.pick(6, 13), "max_writes": 3, "max_finalizes": 2, "max_len": tier.pick(4, 5)}),
             exhaustive: true,
             assumptions: vec![
@@ -403,7 +480,7 @@ pub fn replay(v: &Value) -> Vec<(String, String)> {
         Some(c) => c,
         None => return vec![("bad-replay-file".into(), "cannot parse case".into())],
     };
-    let pal = Palette::new(case.w.ty, None);
+    let pal = palette_for(&case.w);
     let run = run_workload(&pal, &case.w);
     let find = |log: &[Op], cut: (usize, usize), fin: &[(usize, usize)]| -> Option<(Vec<u8>, usize)> {
         let mut r = None;
